@@ -18,8 +18,15 @@ Definition bb_parse (w:list N) (K F:nat) : option (option script) :=
 Definition bb_loads (fs:list (str * list N)) (cwd:str) (w:list N) : outcome prog := loads lex_g lex_rules fs cwd w.
 Definition bb_load (fs:list (str * list N)) (cwd:str) (filename:str) : outcome prog := load lex_g lex_rules fs cwd filename.
 
+Definition bb_instantiate (fs:list (str * list N)) (cwd:str) (w:list N) (sg:list (str * (Z * Z))) : outcome prog :=
+  match bb_loads fs cwd w with
+  | Ok p => instantiate (map (fun kv => (fst kv, TDec (fst (snd kv)) (snd (snd kv)))) sg) p
+  | Refuse c => Refuse c
+  | Unspec => Unspec
+  end.
+
 (* is the token sequence (without EOF) a prefix of a sentence of `start`? *)
 Definition bb_viable (toks:list nat) (K F:nat) : option bool :=
   viable nat nat Nat.eqb pg toks K F (Ref start_rule).
 
-Extraction "bbmodel.ml" bb_lex bb_recognise bb_viable bb_parse bb_loads bb_load instantiate edges nodes.
+Extraction "bbmodel.ml" bb_lex bb_recognise bb_viable bb_parse bb_loads bb_load bb_instantiate edges nodes.
